@@ -26,8 +26,8 @@ def run(A, R: Report, thorough: bool):
     f = A.func('_find_task_full_name')
     cfg = A.cfg(f)
 
-    R.rule('R10.1', 'affix tests between task names in the resolver carry the separator', floor=1)
-    n = check_name_tests(A, R, 'R10.1', only={f.short} | {nf.short for nf in f.nested.values()})
+    R.rule('R10.1', 'affix tests between task names in the resolver and in the resolution of declared inputs carry the separator', floor=2)
+    n = check_name_tests(A, R, 'R10.1', only={f.short, 'Chain._process_dependencies', 'Chain._expand_tasks'} | {nf.short for nf in f.nested.values()})
 
     # ---- R10.2
     R.rule('R10.2', 'n>1: return only under a universally quantified minimality test, else raise; n=0: raise; positional pick only when n=1', floor=3)
@@ -109,3 +109,14 @@ def run(A, R: Report, thorough: bool):
                     '__contains__ does not convert exactly KeyError to False (ambiguity would be reported as absence/presence, or other errors hidden)', witness=show_path(p), where=where(m))
         else:
             R.ok('R10.3', f'{cname}.{mname}', 'reaches the resolver', witness=show_path(p), where=where(m))
+
+    # ---- R10.4 resolution keeps no state
+    from ..types import Ctx
+    from .purity import check_stateless
+    R.rule('R10.4', 'name resolution is a function of the query and the current task names: no memo on the chain, the class or the module', floor=8)
+    for cname, mname in ENTRY:
+        ci = A.cls(cname)
+        m = ci.methods.get(mname)
+        if m is not None:
+            check_stateless(A, R, 'R10.4', f'{cname}.{mname}', [Ctx(m, ('inst', ci))], 'a remembered resolution is reused for another set of task names (another chain, more tasks): ambiguity is no longer detected', any_receiver=False, at=where(m))
+    check_stateless(A, R, 'R10.4', '_find_task_full_name', [Ctx(f, None)], 'the resolver must not remember earlier answers', any_receiver=True, at=where(f))
